@@ -196,6 +196,8 @@ def bytes_(**kwargs):
         raise ProphyError("only shifting bound bytes implemented")
     if shift < 0:
         raise ProphyError("negative shift of bound bytes not allowed")
+    if size < 0:
+        raise ProphyError("negative size of bytes not allowed")
     if kwargs:
         raise ProphyError("unknown arguments to bytes field")
 
